@@ -177,6 +177,7 @@ pub fn tr_block_value(cx: &mut Ctx, b: &Block, expected: Option<&Ty>) -> R<Tr> {
 }
 
 fn emit_return(cx: &Ctx, v: String) -> String {
+    let v = if cx.mut_self && cx.value_depth == 0 { format!("({}, self)", v) } else { v };
     if cx.loop_ctx.is_empty() || cx.value_depth > 0 {
         v
     } else {
@@ -188,6 +189,9 @@ fn finish(cx: &mut Ctx, k: &Cont) -> R<Tr> {
     match k {
         Cont::Value(t) => {
             let _ = t;
+            if cx.mut_self && cx.value_depth == 0 && cx.loop_ctx.is_empty() {
+                return Ok(Tr::new("((), self)", Ty::Unit));
+            }
             Ok(Tr::new("()", Ty::Unit))
         }
         Cont::Tuple(vars) => {
@@ -323,6 +327,9 @@ pub fn tr_stmts(cx: &mut Ctx, stmts: &[Stmt], k: &Cont) -> R<Tr> {
                         }
                         let v = tr_expr(cx, e, t.as_ref())?;
                         let pre = cx.take_prelude();
+                        if cx.mut_self && cx.value_depth == 0 && cx.loop_ctx.is_empty() {
+                            return Ok(Tr::new(format!("{}({}, self)", pre, v.val()), v.ty));
+                        }
                         if pre.is_empty() {
                             return Ok(v);
                         }
